@@ -134,6 +134,12 @@ def count_instance(M, st, ps, pred2, dims2, name='cnt'):
             diag_false = forall([i], IMPLIES(in_range(i, 0, n), NOT(pred(i, i))))
             off_all = forall([i, j], IMPLIES(AND(box, i != j), pred(i, j)))
             out.append(IMPLIES(AND(sq, diag_false), AND(c <= n * (n - 1), (c == n * (n - 1)) == off_all)))
+        # a box side that depends on a parameter may be negative for some parameter values: the facts hold for genuine boxes only
+        # (found by the vacuity guard: `0 <= c <= total` for all parameter values is inconsistent when total can be negative)
+        pids = {p_.get_id() for p_ in pv if is_z3(p_)}
+        par_dims = [d for d in dims if is_z3(d) and any(x.get_id() in pids for x in free_consts(d))]
+        if par_dims:
+            return IMPLIES(AND(*[Z(d) >= 0 for d in par_dims]), AND(*out))
         return AND(*out)
     st.assume(forall(list(ps), facts(list(ps))))
     reg = st.ghost.get('counts', ())
@@ -146,6 +152,16 @@ def count_instance(M, st, ps, pred2, dims2, name='cnt'):
         box = AND(*[in_range(v, 0, d) for v, d in zip(vs, d1)])
         agree = forall(vs, IMPLIES(box, Z(pred2(pv, vs)) == Z(pred2b(pv, vs))))
         st.assume(forall(pv, IMPLIES(AND(AND(*[EQ(a, b) for a, b in zip(d1, d2)]), agree), f(*pv) == f2(*pv))))
+        if nd == 1 and is_z3(Z(d1[0]) - Z(d2[0])):
+            # L-CARD (step): #{i < n+1 | P i} = #{i < n | P i} + [P n]   for two instances whose bounds differ by exactly one
+            diff = z3.simplify(Z(d1[0]) - Z(d2[0]))
+            if z3.is_int_value(diff) and abs(diff.as_long()) == 1:
+                (fs, ds, preds), (fb, db, predb) = ((f2, d2, pred2b), (f, d1, pred2)) if diff.as_long() == 1 else ((f, d1, pred2), (f2, d2, pred2b))
+                v = bvar('c')
+                agree_s = forall([v], IMPLIES(in_range(v, 0, ds[0]), Z(preds(pv, [v])) == Z(predb(pv, [v]))))
+                st.assume(forall(pv, IMPLIES(AND(Z(ds[0]) >= 0, agree_s), fb(*pv) == fs(*pv) + ITE(Z(predb(pv, [Z(ds[0])])), 1, 0)))
+                          if pv else IMPLIES(AND(Z(ds[0]) >= 0, agree_s), fb() == fs() + ITE(Z(predb(pv, [Z(ds[0])])), 1, 0)))
+                M.ex.use('L-CARD:count over n+1 indices = count over n indices + [P n] [Lean: Lemmas.count_succ]')
     st.ghost['counts'] = tuple(reg) + ((f, len(ps), nd, pred2, dims2),)
     M.ex.use('L-CARD:count facts (=0, >=2, =|box|, off-diagonal n(n-1), extensionality) [Lean: Lemmas.count_*, offdiag_count]')
     return f
